@@ -28,6 +28,10 @@ def suite_sk(tier: str, seed: int, mult: int) -> SuiteResult:
         for k in range((120 if tier == "quick" else 1500) * mult):
             F = rng.choice(list(range(2, 25)) + [64, 65])
             rows = gen_rows(rng, F, rng.randint(2, 50))
+            if k % 5 == 0:
+                # a few all-zero fingerprints (they form a cluster of their own, seldom the largest)
+                for _ in range(rng.randint(1, 3)):
+                    rows.insert(rng.randrange(len(rows) + 1), [0] * F)
             cfg = gen_cfg(rng)
             packed = rng.random() < 0.5
             compute = rng.random() < 0.7
@@ -42,6 +46,10 @@ def suite_sk(tier: str, seed: int, mult: int) -> SuiteResult:
             else:
                 d.cmd(f"FIT F={F} labels=- rows={rows_arg(F, rows)}")
             queries = [r for r in gen_rows(rng, F, rng.randint(1, 6)) if any(r)] or [[1] * F]
+            if any(not any(r) for r in rows) or rng.random() < 0.2:
+                # an empty query row: its Jaccard distance to an empty centroid is 0, to any other 1
+                queries.insert(rng.randrange(len(queries) + 1), [0] * F)
+                cnt["empty_queries"] = cnt.get("empty_queries", 0) + 1
             mv = d.cmd(f"SK F={F} rows={rows_arg(F, queries)}")
             kw = {}
             if cfg["crit"] is not None:
